@@ -14,6 +14,11 @@ package main
 //   no_stale_alive   (safety, at quiescence) every started command but the last is dead
 //   none_alive       (safety, after the session ended) no process carrying the session's marker survives
 //   shown            (liveness) the last OUT: marker drawn on the terminal is the last command's
+//   shows_requested_part (liveness, scroll stream) the interpreted screen's preview window holds the lines of the last
+//                    command's output that the request's scroll offset (+SCROLL-OFFSET-/DENOM, ~HEADER) asks for
+//   window histories (pwin stream and the random histories): the window is hidden and brought back at run time by
+//                    change-preview-window / toggle-preview / hide-preview / show-preview, also from an initially hidden
+//                    window; what happened while it was away must be caught up with (caught_up / latest_wins)
 // Correspondence (corr): the user labels derived from the GET states are run through the model (canonical
 // schedule: every request gets started); the commands the implementation started must be a subsequence of
 // the model's requests ending with the same command, and the model must be quiescent and agree on `want`.
@@ -33,7 +38,7 @@ import (
 )
 
 type c20Step struct {
-	A string   `json:"a"`           // up down toggle put:<c> bs refresh toggle-preview change:<variant>
+	A string   `json:"a"`           // up down toggle put:<c> bs refresh toggle-preview change:<variant> cpw:<window spec> hide-preview show-preview
 	B []string `json:"b,omitempty"` // further actions fired back-to-back after A (gap GapUs), only up/down/toggle
 	P int      `json:"p"`           // pause before, ms
 	C bool     `json:"c,omitempty"` // checkpoint: after this step wait until the preview has caught up
@@ -49,6 +54,111 @@ type c20Case struct {
 	ExitUs int       `json:"exit_us,omitempty"` // exit stream: delay between the last action and the exit, µs (-1: after quiescence)
 	Batch  string    `json:"batch,omitempty"`   // batch stream: one action list POSTed as is
 	Screen bool      `json:"screen,omitempty"`
+	Win    string     `json:"win,omitempty"`    // --preview-window of the session without the scroll part (default right,50%)
+	Scroll *c20Scroll `json:"scroll,omitempty"` // scroll stream: two-field items, scroll offset spec, numbered output
+}
+
+// the scroll offset spec of the session: +[{2}][+Add|-Add][-/Denom] and ~Headers
+type c20Scroll struct {
+	Field   bool `json:"field"`   // the expression starts with {2} (the item's second field), otherwise with Base
+	Base    int  `json:"base"`    // constant first component when !Field
+	Add     int  `json:"add"`     // signed constant component (0: none)
+	Denom   int  `json:"denom"`   // -/Denom (0: none)
+	Headers int  `json:"headers"` // ~Headers (0: none)
+}
+
+func (sc c20Scroll) spec() string {
+	s := "+"
+	if sc.Field {
+		s += "{2}"
+	} else {
+		s += strconv.Itoa(sc.Base)
+	}
+	if sc.Add > 0 {
+		s += "+" + strconv.Itoa(sc.Add)
+	} else if sc.Add < 0 {
+		s += strconv.Itoa(sc.Add)
+	}
+	if sc.Denom > 0 {
+		s += "-/" + strconv.Itoa(sc.Denom)
+	}
+	if sc.Headers > 0 {
+		s = "~" + strconv.Itoa(sc.Headers) + "," + s
+	}
+	return s
+}
+
+// sum of the signed components for the item with this target line
+func (sc c20Scroll) sum(target int) int {
+	if sc.Field {
+		return target + sc.Add
+	}
+	return sc.Base + sc.Add
+}
+
+// two-field items of the scroll stream: a word and the line of the preview the user wants to see
+var c20ScrollTargets = []int{50, 80, 7, 120, 33, 64, 1, 95, 150, 12, 71, 40}
+
+func c20ScrollItems() []string {
+	out := []string{}
+	for i, t := range c20ScrollTargets {
+		out = append(out, fmt.Sprintf("w%02d %d", i, t))
+	}
+	return out
+}
+
+// chunk kinds: chunk_<c1>_<pause1>_<c2>_<pause2>_<total>_<end|hang>: c1 lines, pause1 s, lines up to c2, pause2 s, lines
+// up to total, then the command ends or hangs for ever
+type c20Chunk struct {
+	C1, C2, Total int
+	P1, P2        float64
+	Hang          bool
+}
+
+func c20ParseChunk(kind string) (c20Chunk, bool) {
+	f := strings.Split(kind, "_")
+	if len(f) != 7 || f[0] != "chunk" {
+		return c20Chunk{}, false
+	}
+	var ck c20Chunk
+	ck.C1, _ = strconv.Atoi(f[1])
+	ck.P1, _ = strconv.ParseFloat(f[2], 64)
+	ck.C2, _ = strconv.Atoi(f[3])
+	ck.P2, _ = strconv.ParseFloat(f[4], 64)
+	ck.Total, _ = strconv.Atoi(f[5])
+	ck.Hang = f[6] == "hang"
+	return ck, true
+}
+func (ck c20Chunk) kind() string {
+	t := "end"
+	if ck.Hang {
+		t = "hang"
+	}
+	return fmt.Sprintf("chunk_%d_%.2f_%d_%.2f_%d_%s", ck.C1, ck.P1, ck.C2, ck.P2, ck.Total, t)
+}
+
+// hidden flag of the preview window after an action (no alternative layout: activePreviewOpts is previewOpts)
+func c20WinHidden(initHidden, hidden bool, a string) bool {
+	switch {
+	case a == "toggle-preview":
+		return !hidden
+	case a == "show-preview":
+		return false
+	case a == "hide-preview":
+		return true
+	case strings.HasPrefix(a, "cpw:"):
+		spec := a[4:]
+		if spec == "" {
+			return initHidden // the options are reset to the initial ones
+		}
+		for _, tok := range strings.Split(spec, ",") {
+			if tok == "hidden" {
+				return true
+			}
+		}
+		return false // a non-empty spec lifts an initial `hidden`
+	}
+	return hidden
 }
 
 type c20Finding struct {
@@ -73,6 +183,8 @@ type c20Result struct {
 	CorrDone     bool
 	Checkpoints  int
 	ShownChecked bool
+	PartChecked  int
+	WinCycles    int
 }
 
 var c20ScriptOnce sync.Once
@@ -91,6 +203,16 @@ case $kind in
  slowverbose) echo "$tag"; sleep 6 ;;
  foreversilent) sleep 100000 ;;
  foreverinc) echo "$tag"; while :; do echo x; sleep 0.05; done ;;
+ chunk_*)
+  n=${1#N=}
+  old=$IFS; IFS=_; set -- $kind; IFS=$old
+  i=1
+  while [ $i -le $2 ]; do echo "L$i:$id:$n"; i=$((i+1)); done
+  sleep $3
+  while [ $i -le $4 ]; do echo "L$i:$id:$n"; i=$((i+1)); done
+  sleep $5
+  while [ $i -le $6 ]; do echo "L$i:$id:$n"; i=$((i+1)); done
+  [ $7 = hang ] && sleep 100000 ;;
 esac
 echo "end $$" >> LOG
 `
@@ -189,6 +311,10 @@ func c20ActionString(a string, kind string, nextID *int, tm *c20Tmpl) (post stri
 		return "refresh-preview", 4
 	case a == "toggle-preview":
 		return "toggle-preview", 5
+	case a == "show-preview" || a == "hide-preview":
+		return a, 6
+	case strings.HasPrefix(a, "cpw:"):
+		return "change-preview-window(" + a[4:] + ")", 7
 	case strings.HasPrefix(a, "change:"):
 		v, _ := strconv.Atoi(a[7:])
 		*nextID++
@@ -315,9 +441,20 @@ func c20Run(c *Ctx, cs c20Case) (res c20Result) {
 	marker := fmt.Sprintf("C20MARK=%d_%d", os.Getpid(), atomic.AddInt64(&c20Counter, 1))
 	tm := c20Tmpl{ID: 1, Variant: cs.Tmpl}
 	nextID := 1
+	win := cs.Win
+	if win == "" {
+		win = "right,50%"
+	}
+	items := c20Items
+	if cs.Scroll != nil {
+		win += "," + cs.Scroll.spec()
+		items = c20ScrollItems()
+	}
+	initHidden := c20WinHidden(false, false, "cpw:"+win)
+	const cols, rows = 100, 24
 	s, err := StartSession(c, SessionOpts{
-		Args:  []string{"--multi", "--no-sort", "--preview", tm.cmd(cs.Kind), "--preview-window", "right,50%"},
-		Lines: c20Items, Cols: 100, Rows: 24, Env: []string{marker}})
+		Args:  []string{"--multi", "--no-sort", "--preview", tm.cmd(cs.Kind), "--preview-window", win},
+		Lines: items, Cols: cols, Rows: rows, Env: []string{marker}})
 	if err != nil {
 		res.Err = err.Error()
 		return
@@ -329,7 +466,7 @@ func c20Run(c *Ctx, cs c20Case) (res c20Result) {
 	add := func(f c20Finding) { res.Findings = append(res.Findings, f) }
 	// the list is read asynchronously: wait until it is complete and the cursor is on the first line
 	st, ok := s.WaitFor(func(g *FzfState) bool {
-		return !g.Reading && g.TotalCount == len(c20Items) && g.MatchCount == len(c20Items) && g.Current != nil
+		return !g.Reading && g.TotalCount == len(items) && g.MatchCount == len(items) && g.Current != nil
 	}, 10*time.Second)
 	if !ok || st == nil {
 		res.Err = "list not loaded within 10 s"
@@ -337,9 +474,114 @@ func c20Run(c *Ctx, cs c20Case) (res c20Result) {
 	}
 	ui := c20UIOf(st)
 	labels := []Val{}
+	if initHidden {
+		labels = append(labels, L(I(20))) // the session starts with the window hidden
+	}
 	labels = append(labels, c20Diff(c20UI{Focus: -1}, ui)...)
-	visible := true
+	visible := !initHidden
 	predicted := true
+	vt := newVT(cols, rows)
+	// scroll stream: the window shows the part of the last command's output its request asked for (eventually; the
+	// command needs its pauses to produce the output).  Returns nil or the finding.
+	partCheck := func(where string) *c20Finding {
+		ck, isChunk := c20ParseChunk(cs.Kind)
+		if cs.Scroll == nil || !isChunk {
+			return nil
+		}
+		sc := *cs.Scroll
+		var seen []int
+		var height int
+		var top string
+		var last c20Start
+		var r Val
+		okAt := time.Time{}
+		dl := time.Now().Add(time.Duration((ck.P1+ck.P2)*1000)*time.Millisecond + 10*time.Second)
+		for {
+			starts := c20ReadLog(s)
+			if len(starts) == 0 {
+				return nil
+			}
+			last = starts[len(starts)-1]
+			target := 0
+			if last.N >= 0 && last.N < len(c20ScrollTargets) {
+				target = c20ScrollTargets[last.N]
+			}
+			vt.Sync(s)
+			seen, height, top = c20Pane(vt, last.ID, last.N)
+			r = c.Model.Call(2005, L(I(sc.sum(target)), I(sc.Denom), I(height), I(sc.Headers), I(ck.Total), Ints(seen)))
+			good := r.IsList && len(r.L) == 4 && r.L[3].I == 1 && (ck.Hang || last.Ended)
+			if good {
+				// the content must stay: two more render ticks
+				if okAt.IsZero() {
+					okAt = time.Now()
+				} else if time.Since(okAt) >= 250*time.Millisecond {
+					break
+				}
+			} else {
+				okAt = time.Time{}
+			}
+			if time.Now().After(dl) {
+				break
+			}
+			time.Sleep(20 * time.Millisecond)
+		}
+		res.PartChecked++
+		c.Rep.mu.Lock()
+		c.Rep.SpecChecks++
+		c.Rep.mu.Unlock()
+		if !r.IsList || len(r.L) != 4 {
+			return &c20Finding{Kind: "corr", Name: "corr:C20.model_answer", Impl: "n/a", Expect: r.String()}
+		}
+		req := int(r.L[0].I)
+		// correspondence: the scroll machine of the model on the canonical schedule of this script (three ticks in a pause,
+		// every result handled before the next tick) ends at the offset the implementation shows
+		if !okAt.IsZero() || len(seen) > 0 {
+			tick := func(p float64) []Val {
+				if p >= 0.3 {
+					return []Val{L(I(1), I(2)), L(I(3), I(1)), L(I(1), I(1)), L(I(3), I(1))}
+				}
+				return nil
+			}
+			sched := []Val{L(I(0), I(ck.C1))}
+			sched = append(sched, tick(ck.P1)...)
+			sched = append(sched, L(I(0), I(ck.C2-ck.C1)))
+			sched = append(sched, tick(ck.P2)...)
+			sched = append(sched, L(I(0), I(ck.Total-ck.C2)))
+			if ck.Hang {
+				sched = append(sched, tick(1)...)
+			} else {
+				sched = append(sched, L(I(2), I(1)))
+			}
+			sched = append(sched, L(I(3), I(1)))
+			mv := c.Model.Call(2006, L(I(req), I(sc.Headers), I(0), L(sched...)))
+			hdrRows := 0
+			if sc.Headers > 0 && sc.Headers < ck.Total && sc.Headers < height {
+				hdrRows = sc.Headers
+			}
+			if mv.IsList && len(mv.L) == 5 && len(seen) > hdrRows && seen[hdrRows] > 0 {
+				mo := int(mv.L[4].I)
+				if mo < hdrRows { // an offset inside the header rows looks like the first line below them
+					mo = hdrRows
+				}
+				if mo != seen[hdrRows]-1 {
+					res.Findings = append(res.Findings, c20Finding{Kind: "corr", Name: "corr:C20.scroll_machine", Liveness: true,
+						Impl: fmt.Sprintf("window offset %d (%s; rows %v)", seen[hdrRows]-1, top, seen), Expect: fmt.Sprintf("offset %d: %s", mv.L[4].I, mv.String())})
+				}
+			}
+		}
+		if okAt.IsZero() {
+			f := &c20Finding{Kind: "spec", Name: "shows_requested_part", Liveness: true,
+				Impl:   fmt.Sprintf("%s: window of %d rows shows lines %v (first row %q) of command %s", where, height, seen, top, last.String()),
+				Expect: fmt.Sprintf("scroll %s on %d lines: offset %d, lines %s", sc.spec(), ck.Total, r.L[1].I, r.L[2].String())}
+			// known finding c20-scroll-edge: a chunk of the output ends exactly at the requested offset, the window is
+			// one line short
+			if req > 0 && (ck.C1 == req || ck.C2 == req) && len(seen) > 0 {
+				f.Known = "c20-scroll-edge"
+			}
+			return f
+		}
+		return nil
+	}
 	safety := func() {
 		starts := c20ReadLog(s)
 		al := c20AliveList(starts, marker)
@@ -418,6 +660,22 @@ func c20Run(c *Ctx, cs c20Case) (res c20Result) {
 			case 5:
 				labels = append(labels, L(I(5)))
 				visible = !visible
+			case 6: // show-preview / hide-preview: a toggle when it applies
+				if nh := c20WinHidden(initHidden, !visible, stp.A); nh == visible {
+					labels = append(labels, L(I(5)))
+					visible = !nh
+				}
+			case 7: // change-preview-window
+				nh := c20WinHidden(initHidden, !visible, stp.A)
+				if nh {
+					labels = append(labels, L(I(20)))
+				} else {
+					labels = append(labels, L(I(21)))
+					if !visible {
+						res.WinCycles++
+					}
+				}
+				visible = !nh
 			}
 			st = g
 		} else {
@@ -496,6 +754,14 @@ func c20Run(c *Ctx, cs c20Case) (res c20Result) {
 				checkpointFailed = true
 				add(c20Finding{Kind: "spec", Name: "latest_wins", Impl: "checkpoint after step " + stp.A + ": last started: " + last, Expect: "command for the current state: " + expv.String() + fmt.Sprintf(" (ui %+v)", ui), Liveness: true})
 				break
+			}
+			if predictedOK(ui, tm) {
+				if f := partCheck("checkpoint after step " + stp.A); f != nil {
+					add(*f)
+					if f.Known == "" {
+						break
+					}
+				}
 			}
 		}
 	}
@@ -596,6 +862,12 @@ func c20Run(c *Ctx, cs c20Case) (res c20Result) {
 		}
 		if visible && cu && !noStale {
 			add(c20Finding{Kind: "spec", Name: "superseded_get_cancel", Impl: fmt.Sprint("alive at quiescence: ", al, " of ", starts), Expect: "only the last started command may be alive"})
+		}
+		// ---- the part of the output the window shows (scroll stream) ----
+		if visible && cu && !unforced {
+			if f := partCheck("at quiescence"); f != nil {
+				add(*f)
+			}
 		}
 		// ---- preview window text ----
 		if visible && cu && !unforced && len(starts) > 0 && (cs.Kind == "instant" || cs.Kind == "short" || cs.Kind == "slowverbose" || cs.Kind == "foreverinc") {
@@ -775,7 +1047,11 @@ func c20Check(c *Ctx, cs c20Case) {
 	rep.Eval(string(key), res.Nontrivial || cs.Stream != "hist")
 	rep.Sample(cs)
 	rep.Count("stream=" + cs.Stream)
-	rep.Count("kind=" + cs.Kind)
+	if _, isChunk := c20ParseChunk(cs.Kind); isChunk {
+		rep.Count("kind=chunk")
+	} else {
+		rep.Count("kind=" + cs.Kind)
+	}
 	rep.Count(fmt.Sprintf("tmpl=%d", cs.Tmpl))
 	rep.Count("exit=" + cs.Exit)
 	rep.CountN("commands_started", res.Starts)
@@ -787,6 +1063,14 @@ func c20Check(c *Ctx, cs c20Case) {
 	}
 	if res.ShownChecked {
 		rep.Count("window_text_checked")
+	}
+	rep.CountN("window_part_checked", res.PartChecked)
+	rep.CountN("window_hidden_and_back_by_cpw", res.WinCycles)
+	if cs.Win != "" {
+		rep.Count("win=" + cs.Win)
+	}
+	if cs.Scroll != nil {
+		rep.Count("scroll=" + cs.Scroll.spec())
 	}
 	if res.AliveAtExit {
 		rep.Count("alive_at_exit")
@@ -811,7 +1095,7 @@ func c20Gen(r *RNG, thorough bool) c20Case {
 	hidden := false
 	for i := 0; i < n; i++ {
 		st := c20Step{P: Pick(r, []int{0, 1, 3, 8, 20, 40, 80})}
-		switch x := r.Intn(20); {
+		switch x := r.Intn(23); {
 		case x < 5:
 			st.A = "up"
 		case x < 8:
@@ -832,6 +1116,19 @@ func c20Gen(r *RNG, thorough bool) c20Case {
 			st.A = "toggle-preview"
 			st.P = Pick(r, []int{30, 50, 80})
 			hidden = !hidden
+		case x < 19:
+			// the window is hidden / brought back / laid out differently through change-preview-window
+			if hidden {
+				st.A = "cpw:" + Pick(r, c20ShowSpecs)
+			} else {
+				st.A = "cpw:" + Pick(r, []string{"hidden", "hidden", "left", "up,50%", "right,60%", "down,40%,hidden"})
+			}
+			st.P = Pick(r, []int{30, 50, 80})
+			hidden = c20WinHidden(false, hidden, st.A)
+		case x < 20:
+			st.A = Pick(r, []string{"hide-preview", "show-preview"})
+			st.P = Pick(r, []int{30, 50, 80})
+			hidden = c20WinHidden(false, hidden, st.A)
 		default:
 			st.A = Pick(r, []string{"up", "down", "toggle"})
 			k := r.Range(1, 3)
@@ -847,7 +1144,107 @@ func c20Gen(r *RNG, thorough bool) c20Case {
 	// end with a step that changes what the preview depends on
 	cs.Steps = append(cs.Steps, c20Step{A: Pick(r, []string{"up", "toggle", "toggle", "put:a", "down", "toggle"}), P: Pick(r, []int{0, 3, 20, 60})})
 	if hidden { // end with the window visible so that the final check is meaningful
-		cs.Steps = append(cs.Steps, c20Step{A: "toggle-preview", P: 40})
+		cs.Steps = append(cs.Steps, c20Step{A: Pick(r, []string{"toggle-preview", "show-preview", "cpw:", "cpw:left", "cpw:right,60%"}), P: 40})
+	}
+	return cs
+}
+
+// window specs that bring a hidden window back (wide enough for the OUT: marker: at least 40 columns)
+var c20ShowSpecs = []string{"", "left", "up,50%", "right,60%", "down,40%", "right,50%"}
+
+// c20WinCase: the window is taken away at run time (change-preview-window(hidden), toggle-preview, hide-preview) or is
+// hidden from the start; the cursor moves / the selection or the query changes while it is away; it is brought back
+// (change-preview-window with some layout, toggle-preview, show-preview): the preview must catch up with what
+// happened meanwhile.  Also plain layout changes of a visible window.
+func c20WinCase(r *RNG, i int) c20Case {
+	cs := c20Case{Stream: "pwin", Kind: Pick(r, []string{"instant", "instant", "short", "foreverinc", "slowverbose", "foreversilent"}),
+		Tmpl: Pick(r, []int{0, 0, 2, 3, 1}), Exit: Pick(r, []string{"accept", "abort", "sigterm"}), ExitUs: -1}
+	p := func() int { return Pick(r, []int{20, 40, 60, 100, 150}) }
+	initHidden := i%4 == 3
+	hidden := initHidden
+	if initHidden {
+		cs.Win = Pick(r, []string{"right,50%,hidden", "hidden", "left,hidden"})
+	} else {
+		cs.Steps = append(cs.Steps, c20Step{A: Pick(r, []string{"up", "toggle", "up"}), P: p(), C: true})
+	}
+	rounds := r.Range(1, 2)
+	for k := 0; k < rounds; k++ {
+		if !hidden {
+			a := Pick(r, []string{"cpw:hidden", "cpw:hidden", "toggle-preview", "hide-preview", "cpw:left,hidden"})
+			cs.Steps = append(cs.Steps, c20Step{A: a, P: p()})
+			hidden = true
+		}
+		// something the preview depends on changes while the window is away
+		n := r.Range(1, 3)
+		for j := 0; j < n; j++ {
+			a := Pick(r, []string{"up", "up", "down", "toggle", "put:a", "up"})
+			if j == 0 {
+				a = Pick(r, []string{"up", "up", "toggle", "up"})
+			}
+			cs.Steps = append(cs.Steps, c20Step{A: a, P: p()})
+		}
+		var a string
+		for {
+			a = Pick(r, []string{"cpw:", "cpw:", "cpw:left", "cpw:up,50%", "cpw:right,60%", "toggle-preview", "show-preview", "cpw:down,40%"})
+			if !c20WinHidden(initHidden, hidden, a) {
+				break
+			}
+		}
+		cs.Steps = append(cs.Steps, c20Step{A: a, P: p(), C: true})
+		hidden = false
+		if r.Chance(1, 2) { // a layout change of the visible window, then a move
+			cs.Steps = append(cs.Steps, c20Step{A: "cpw:" + Pick(r, []string{"left", "up,50%", "right,60%", "down,40%"}), P: p(), C: true})
+		}
+		cs.Steps = append(cs.Steps, c20Step{A: Pick(r, []string{"up", "down", "toggle"}), P: p(), C: true})
+	}
+	return cs
+}
+
+// c20ScrollCase: a scroll offset in --preview-window and a command whose numbered output arrives in chunks (some lines,
+// a pause of several render ticks, more lines, ... then the end or a hang): after each move the window must show the
+// requested part of the output of the command for the focused line.
+func c20ScrollCase(r *RNG, i int) c20Case {
+	sc := c20Scroll{Field: true}
+	switch i % 6 {
+	case 0:
+		sc.Denom = 2
+	case 1:
+		sc.Add = -Pick(r, []int{3, 5, 10})
+	case 2:
+	case 3:
+		sc.Add, sc.Denom = 3, Pick(r, []int{2, 3})
+		sc.Headers = 3
+	case 4:
+		sc.Field, sc.Base = false, Pick(r, []int{20, 35, 60})
+	case 5:
+		sc.Denom = Pick(r, []int{2, 3, 4})
+		sc.Headers = Pick(r, []int{0, 1, 2})
+	}
+	ck := c20Chunk{Total: Pick(r, []int{100, 160, 200}), Hang: r.Chance(1, 4)}
+	if ck.Hang {
+		// a never-ending command is rendered only once it has printed as many lines as the requested offset (the
+		// largest one here is 153): an output that stays shorter is never shown at all (reported; not generated)
+		ck.Total = 200
+	}
+	ck.C1 = Pick(r, []int{1, 2, 5, 5, 10, 25, 40, 70})
+	ck.P1 = Pick(r, []float64{0.35, 0.45, 0.6})
+	ck.C2 = ck.C1
+	if r.Chance(1, 3) { // a second chunk and pause
+		ck.C2 = ck.C1 + Pick(r, []int{1, 5, 20, 50})
+		ck.P2 = Pick(r, []float64{0.35, 0.5})
+	}
+	if ck.C2 > ck.Total {
+		ck.C2 = ck.Total
+	}
+	cs := c20Case{Stream: "scroll", Kind: ck.kind(), Tmpl: 2, Exit: Pick(r, []string{"accept", "abort", "sigterm"}), ExitUs: -1,
+		Win: Pick(r, []string{"right,50%", "left,50%", "right,60%"}), Scroll: &sc, GapUs: Pick(r, []int{300, 900, 2000})}
+	n := r.Range(2, 3)
+	for k := 0; k < n; k++ {
+		st := c20Step{A: Pick(r, []string{"up", "up", "up", "down"}), P: Pick(r, []int{0, 20, 80}), C: true}
+		if r.Chance(1, 4) {
+			st.B = []string{Pick(r, []string{"up", "up", "down"})}
+		}
+		cs.Steps = append(cs.Steps, st)
 	}
 	return cs
 }
@@ -884,7 +1281,7 @@ func c20SelInPlace(r *RNG, i int) c20Case {
 }
 
 func runC20(c *Ctx) {
-	c.Rep.Rule = "pty sessions with a logging preview command (instant / 50 ms / 6 s / never ending, silent or printing; templates with and without {q} and {+n}); random histories of up/down/toggle/typing/backspace/refresh-preview/change-preview/toggle-preview with pauses 0-80 ms and back-to-back groups; dedicated streams: two moves 0.3-1 ms apart, session end with a live / just superseded preview, selection toggled off/on without moving the cursor under a {+n} template, one batched action list; non-trivial = at least 3 commands started and 4 model labels (dedicated streams always); distinct by JSON of the case"
+	c.Rep.Rule = "pty sessions with a logging preview command (instant / 50 ms / 6 s / never ending, silent or printing; templates with and without {q} and {+n}); random histories of up/down/toggle/typing/backspace/refresh-preview/change-preview/toggle-preview with pauses 0-80 ms and back-to-back groups; dedicated streams: two moves 0.3-1 ms apart, session end with a live / just superseded preview, selection toggled off/on without moving the cursor under a {+n} template, the window hidden (change-preview-window(hidden) / toggle-preview / hide-preview / hidden from the start) and brought back (change-preview-window with a layout / toggle-preview / show-preview) with moves, selections and typing in between, a scroll offset (+{2}-/2, +{2}-5, ~3,+{2}+3-/2, +N ...) with numbered output arriving in chunks separated by pauses of 0.35-0.6 s (window content read off an interpreted screen), one batched action list; non-trivial = at least 3 commands started and 4 model labels (dedicated streams always); distinct by JSON of the case"
 	if c.Replay != "" {
 		var cs c20Case
 		b, err := os.ReadFile(c.Replay)
@@ -945,6 +1342,14 @@ func runC20(c *Ctx) {
 	// (or another one on) in place; every step is a checkpoint ({+n} must follow the selection)
 	for i, n := 0, c.N(8, 48); i < n; i++ {
 		cases = append(cases, c20SelInPlace(r, i))
+	}
+	// the window hidden and brought back at run time
+	for i, n := 0, c.N(10, 80); i < n; i++ {
+		cases = append(cases, c20WinCase(r, i))
+	}
+	// scroll offset of the request and output that arrives in chunks
+	for i, n := 0, c.N(10, 80); i < n; i++ {
+		cases = append(cases, c20ScrollCase(r, i))
 	}
 	// one batched action list (known: c20-batched-refresh)
 	cases = append(cases, c20Case{Stream: "batch", Kind: "instant", Tmpl: 0, Batch: "up+refresh-preview+down", Exit: "abort", ExitUs: -1,
